@@ -59,6 +59,7 @@ Predict == [l \in Langs |-> Safe(l, Wrapped(l))]
 \* companies: the entry (which may contain line breaks: block / #[doc] style) is not the element's only doc attribute - a single-line
 \* `///` attribute stands before or after it. Every entry is wrapped on its own, whatever else documents the element.
 Companies == {"block_after_line", "attr_after_line", "block_before_line", "attr_before_line"}
+\* Named: the entry documents a TYPE and begins with the type's own name, which a naming option of the run re-spells (Go acronyms)
 HasBreak == \E i \in 1..Len(doc) : doc[i] \in {"NL", "CRLF", "CR", "NLSL", "NLBC", "BCCR"}
 Emit == doc # <<>> => PrintT(<<"REPLAY", ToJson([doc |-> doc, predict_safe |-> Predict, companies |-> IF HasBreak THEN Companies ELSE {}])>>)
 =============================================================================
